@@ -63,12 +63,28 @@
 (* code the records are written before the index entry, so a listed entry always has its       *)
 (* record.  Variant "indexfirst" (not the code): the index entry is appended first - a list    *)
 (* request in between prunes the entry of a code that then goes live uncounted (LivePruned).   *)
+(* mapquota: the list request is Service.ListOutboundMappings -> GetClientPortMappings (index  *)
+(* read + record look-ups, entries without a record are skipped); the same two orders of the   *)
+(* create (PortMappingRepo.CreatePortMapping, then AddMappingToClient) and the same variant.   *)
 (*                                                                                             *)
 (* Mapping handler, connection that gets a tunnel: Register (tunnel registered with the tunnel *)
 (* manager, reachable for peer notifications), then GoLive/Detach (Tunnel.Start succeeded) or  *)
 (* PeerClose (a TunnelError/TunnelClosed notification closes it first: the tunnel's OnClosed   *)
 (* releases the slot) followed by StartFail (Start fails, the deferred release runs - a no-op  *)
 (* thanks to the Once; variant "doublerelease": it decrements again).                          *)
+(*                                                                                             *)
+(* A peer notification may also close a tunnel that is already relaying (PeerClose at "live"): *)
+(* Tunnel.Close runs once (state CAS), its OnClosed gives the slot back; the copy loops of the  *)
+(* closed tunnel end and call Tunnel.Close again - a no-op, part of the same step.              *)
+(*                                                                                             *)
+(* What the check saw: a request of the two caps with separate check and insert steps keeps,   *)
+(* between the two, the count its check read (ghost `saw`; the code as it is does not use it:  *)
+(* the insert step decides on the count it reads itself).  `saw` is part of the view, so the   *)
+(* generated behaviours distinguish "checked at limit-1" from "checked with more head-room".   *)
+(* Variant "lastslot" (not the code): the insert step looks at the count again only when the   *)
+(* check saw the last free slot (saw = limit-1); a request that saw more head-room inserts      *)
+(* unconditionally - k+2 requests that all check at occupancy limit-(k+1) are all admitted:     *)
+(* named deviation CondRecheck (needs slack >= 2 and n >= slack+1).                             *)
 (*                                                                                             *)
 (* Histories (caps with an explicit removal: conncap CloseConnection, ctrlcap / tuncap Remove):*)
 (* ReRelease(p) removes an id that is not registered - a second close of the same connection,  *)
@@ -78,7 +94,7 @@
 (*   "none"          the code as it is now (the kinds in FixedKinds in their repaired form)    *)
 (*   "asis"          the code before the repairs (check and insert not atomic, no quota mutex,  *)
 (*                   slot freed when handleConnection returns)                                  *)
-(*   "wrongkey", "ctrlsplit", "lockdrop", "indexfirst", "doublerelease"                         *)
+(*   "wrongkey", "ctrlsplit", "lockdrop", "indexfirst", "doublerelease", "lastslot"             *)
 (*                   faulty variants (not the code), described with the actions they change;    *)
 (*                   their behaviours must be unrealisable on the right tree                   *)
 (* The configuration (kind, n, limit, nodes) is chosen in Init, so one TLC run covers every    *)
@@ -90,14 +106,15 @@ CONSTANTS Kinds,        \* subset of {"conncap","ctrlcap","tuncap","maplimit","c
           NS,           \* numbers of racing requests, subset of 1..4
           Lims,         \* limit values
           NodeCounts,   \* numbers of service instances (quota kinds only; other kinds always 1)
-          Variants,     \* which code to model, subset of {"none", "asis", "wrongkey", "ctrlsplit", "lockdrop", "indexfirst", "doublerelease"}:
+          Variants,     \* which code to model, subset of {"none", "asis", "wrongkey", "ctrlsplit", "lockdrop", "indexfirst", "doublerelease", "lastslot"}:
                         \* "wrongkey" = quota mutex keyed on the code's issuer; "ctrlsplit" = ClientRegistry.Register evicts and
                         \* inserts in two lock sections; "lockdrop" = the quota mutex table creates mutexes on demand and deletes
                         \* the entry on unlock; "indexfirst" = index entry appended before the records; "doublerelease" = the
-                        \* mapping handler's slot release is not idempotent
+                        \* mapping handler's slot release is not idempotent; "lastslot" = the insert step re-checks only when
+                        \* the check saw the last free slot
           Shape,        \* "free": every combination; "pairs": (2 requests, slack 1) and (3 requests, slack 2) only (maximal-behaviour jobs)
           MaxReRel,     \* removals of absent ids per behaviour
-          Listers,      \* 1: a list request may run next to the creates (codequota), 0: none
+          Listers,      \* 1: a list request may run next to the creates (codequota, mapquota), 0: none
           Slacks,       \* free slots at the start: occupancy = limit - slack (1 = the boundary; 2 lets one request in before two race)
           FixedKinds,   \* kinds modelled in their repaired form; the tag "maplive" = the mapping handler keeps the slot
                         \* while the connection lives (kind maplimit, actions GoLive instead of Detach)
@@ -124,13 +141,16 @@ VARIABLES cfg,    \* [k, n, lim, nodes, tg, key, slack] - fixed per behaviour
           lpc,    \* list request: idle | list | prune | done
           lq,     \* list request: index entries it still has to look up
           ltg,    \* list request: the entry it is about to remove
+          saw,    \* ghost (caps with separate check and insert): the count the check of a request read, while it is
+                  \* between check and insert (NoSaw otherwise)
           eff,    \* ghost: net contribution of each request to the semantic state
           dev,    \* ghost: a named deviation happened (StaleInsert, StalePut, SlotFreedWhileLive)
           over,   \* ghost: the limit was exceeded at some instant of this behaviour
           hist
 qx == <<recs, ixs, lpc, lq, ltg>>
-vars == <<cfg, pc, cnt, pre, q, lock, entry, mx, nrr, qx, eff, dev, over, hist>>
-view == <<cfg, pc, cnt, pre, q, lock, entry, mx, nrr, qx, eff, dev, over>>
+vars == <<cfg, pc, cnt, pre, q, lock, entry, mx, nrr, qx, saw, eff, dev, over, hist>>
+view == <<cfg, pc, cnt, pre, q, lock, entry, mx, nrr, qx, saw, eff, dev, over>>
+NoSaw == 99
 
 K == cfg.k
 Lim == cfg.lim
@@ -143,6 +163,9 @@ Fixed == K \in FixedKinds /\ Var # "asis"
 LiveFixed == "maplive" \in FixedKinds /\ Var # "asis"    \* the mapping handler's slot lives as long as the connection
 IndexFirst == Var = "indexfirst"
 DoubleRel == Var = "doublerelease"
+LastSlot == Var = "lastslot"
+\* does the insert step of p look at the count again? (variant lastslot: only if its check saw the last free slot)
+Rechecks(p) == ~LastSlot \/ saw[p] = Lim - 1
 \* connections end / absent ids are removed only in the boundary configurations (slack 1) of the real orders
 Rel == WithRelease /\ cfg.slack = 1 /\ Var # "ctrlsplit"
 Node(p) == IF cfg.nodes = 1 THEN 1 ELSE 1 + (p % 2)
@@ -176,10 +199,14 @@ Init == \E k \in Kinds, nn \in NS, l \in Lims, nd \in NodeCounts, tg \in {"same"
           /\ (v = "wrongkey" => (k = "mapquota" /\ tg = "distinct" /\ sl = 1))
           /\ (v = "ctrlsplit" => (k = "ctrlcap" /\ sl = 1 /\ nn >= 3 /\ l > 0))
           /\ (v = "lockdrop" => (k \in QuotaKinds /\ sl = 2 /\ nn >= 3))
-          /\ (v = "indexfirst" => (k = "codequota" /\ sl = 1 /\ nn = 2 /\ l > 0))
+          /\ (v = "indexfirst" => (k \in QuotaKinds /\ sl = 1 /\ nn = 2 /\ l > 0 /\ tg = "same"))
           /\ (v = "doublerelease" => (k = "maplimit" /\ sl = 1 /\ nn = 3 /\ l > 0))
-          /\ (sl > 1 => v \in {"none", "lockdrop"})
-          /\ (Shape = "pairs" => (v = "ctrlsplit" \/ (nn = 2 /\ sl = 1) \/ (nn = 3 /\ sl = 2 /\ v = "none" /\ nd = 1)))
+          /\ (v = "lastslot" => (k \in CapKinds /\ sl >= 2 /\ nn >= sl + 1))
+          /\ (sl > 1 => v \in {"none", "lockdrop", "lastslot"})
+          \* limits above 2 only where they add something: caps with separate check and insert, n = slack+1 requests
+          \* racing for `slack` = limit free slots (what a check saw ranges over 0..limit-1)
+          /\ (l > 2 => (k \in CapKinds /\ sl = l /\ nn = sl + 1 /\ v \in {"none", "lastslot"}))
+          /\ (Shape = "pairs" => (v = "ctrlsplit" \/ (nn = 2 /\ sl = 1) \/ (nn = sl + 1 /\ sl >= 2 /\ v = "none" /\ nd = 1)))
           /\ cfg = [k |-> k, n |-> nn, lim |-> l, nodes |-> nd, tg |-> tg, slack |-> sl, var |-> v,
                     key |-> IF v = "wrongkey" THEN "issuer" ELSE "owner"]
           /\ LET p0 == IF l = 0 THEN 0 ELSE l - sl IN
@@ -190,6 +217,7 @@ Init == \E k \in Kinds, nn \in NS, l \in Lims, nd \in NodeCounts, tg \in {"same"
           /\ entry = [i \in LockIds |-> IF LockDrop THEN 0 ELSE PermId(i)]
           /\ mx = [p \in Procs |-> 0] /\ nrr = 0
           /\ recs = {} /\ ixs = <<>> /\ lpc = "idle" /\ lq = <<>> /\ ltg = 0
+          /\ saw = [p \in Procs |-> NoSaw]
           /\ eff = [p \in Procs |-> 0]
           /\ dev = FALSE /\ over = FALSE /\ hist = <<>>
 
@@ -204,6 +232,7 @@ Log(p, a) == /\ over' = (over \/ (Lim > 0 /\ OccOf(pc', pre', recs') > Lim))
 \* ---- caps whose check and insert are separate steps ----------------------------------------
 Check(p) == /\ K \in CapKinds /\ pc[p] = "start"
             /\ pc' = [pc EXCEPT ![p] = IF Full(cnt) THEN "refused" ELSE "mid"]
+            /\ saw' = [saw EXCEPT ![p] = IF Full(cnt) THEN NoSaw ELSE cnt]
             /\ UNCHANGED <<cfg, qx, cnt, pre, q, lock, entry, mx, nrr, eff, dev>>
             /\ Log(p, "Check")
 
@@ -212,27 +241,33 @@ Insert(p) == /\ K \in CapKinds /\ ~Fixed /\ pc[p] = "mid"
              /\ cnt' = cnt + 1 /\ eff' = [eff EXCEPT ![p] = 1]
              /\ dev' = (dev \/ Full(cnt))
              /\ pc' = [pc EXCEPT ![p] = "adm"]
+             /\ saw' = [saw EXCEPT ![p] = NoSaw]
              /\ UNCHANGED <<cfg, qx, pre, q, lock, entry, mx, nrr>>
              /\ Log(p, "Insert")
 
 \* repaired CreateConnection: count check and map insert in one write-lock section
+\* (variant lastslot: a request whose check saw more than one free slot does not look again - deviation CondRecheck)
 InsertChk(p) == /\ K = "conncap" /\ Fixed /\ pc[p] = "mid"
-                /\ IF Full(cnt)
+                /\ IF Rechecks(p) /\ Full(cnt)
                    THEN pc' = [pc EXCEPT ![p] = "refused"] /\ UNCHANGED <<cnt, eff>>
                    ELSE pc' = [pc EXCEPT ![p] = "adm"] /\ cnt' = cnt + 1 /\ eff' = [eff EXCEPT ![p] = 1]
-                /\ UNCHANGED <<cfg, qx, pre, q, lock, entry, mx, nrr, dev>>
+                /\ dev' = (dev \/ (~Rechecks(p) /\ Full(cnt)))
+                /\ saw' = [saw EXCEPT ![p] = NoSaw]
+                /\ UNCHANGED <<cfg, qx, pre, q, lock, entry, mx, nrr>>
                 /\ Log(p, "InsertChk")
 
 \* repaired mapping handler: reserve with Add(1), compare the value Add returned, undo when over the limit
 AddCmp(p) == /\ K = "maplimit" /\ Fixed /\ pc[p] = "mid"
              /\ cnt' = cnt + 1 /\ eff' = [eff EXCEPT ![p] = 1]
-             /\ pc' = [pc EXCEPT ![p] = IF Lim > 0 /\ cnt + 1 > Lim THEN "undo" ELSE "adm"]
-             /\ UNCHANGED <<cfg, qx, pre, q, lock, entry, mx, nrr, dev>>
+             /\ pc' = [pc EXCEPT ![p] = IF Rechecks(p) /\ Lim > 0 /\ cnt + 1 > Lim THEN "undo" ELSE "adm"]
+             /\ dev' = (dev \/ (~Rechecks(p) /\ Full(cnt)))
+             /\ saw' = [saw EXCEPT ![p] = NoSaw]
+             /\ UNCHANGED <<cfg, qx, pre, q, lock, entry, mx, nrr>>
              /\ Log(p, "AddCmp")
 Undo(p) == /\ pc[p] = "undo"
            /\ cnt' = cnt - 1 /\ eff' = [eff EXCEPT ![p] = 0]
            /\ pc' = [pc EXCEPT ![p] = "refused"]
-           /\ UNCHANGED <<cfg, qx, pre, q, lock, entry, mx, nrr, dev>>
+           /\ UNCHANGED <<cfg, saw, qx, pre, q, lock, entry, mx, nrr, dev>>
            /\ Log(p, "Undo")
 
 \* ---- registries: check and insert under one lock -------------------------------------------
@@ -252,7 +287,7 @@ Reg(p) == /\ K \in RegKinds /\ pc[p] = "start" /\ RegFree
                   /\ pc' = IF old > Old THEN [pc EXCEPT ![p] = "evict"] ELSE [pc EXCEPT ![p] = "evict", ![old] = "evicted"]
                   /\ eff' = IF old > Old THEN eff ELSE [eff EXCEPT ![old] = 0]
           /\ lock' = IF K = "ctrlcap" /\ CtrlLocked /\ Full(cnt) THEN [lock EXCEPT ![RLM] = p] ELSE lock
-          /\ UNCHANGED <<cfg, qx, dev, entry, mx, nrr>>
+          /\ UNCHANGED <<cfg, saw, qx, dev, entry, mx, nrr>>
           /\ Log(p, "Reg")
 
 \* ... Close returned: insert. In the code this is still the lock section of Reg(p), so the count is the one Reg left;
@@ -263,14 +298,14 @@ RegIns(p) == /\ K = "ctrlcap" /\ pc[p] = "evict"
              /\ dev' = (dev \/ Full(cnt))
              /\ pc' = [pc EXCEPT ![p] = "adm"]
              /\ lock' = IF CtrlLocked THEN [lock EXCEPT ![RLM] = 0] ELSE lock
-             /\ UNCHANGED <<cfg, qx, pre, entry, mx, nrr>>
+             /\ UNCHANGED <<cfg, saw, qx, pre, entry, mx, nrr>>
              /\ Log(p, "RegIns")
 
 \* mapping handler: the connection got its tunnel, which is now registered with the tunnel manager (peer
 \* notifications can reach it); Tunnel.Start comes next
 Register(p) == /\ K = "maplimit" /\ Rel /\ pc[p] = "adm"
                /\ pc' = [pc EXCEPT ![p] = "reg"]
-               /\ UNCHANGED <<cfg, qx, cnt, pre, q, lock, entry, mx, nrr, eff, dev>>
+               /\ UNCHANGED <<cfg, saw, qx, cnt, pre, q, lock, entry, mx, nrr, eff, dev>>
                /\ Log(p, "Register")
 
 \* Tunnel.Start succeeded: the connection is relayed from now on; handleConnection returns.
@@ -279,7 +314,7 @@ GoLive(p) == /\ K = "maplimit" /\ pc[p] = "reg"
              /\ pc' = [pc EXCEPT ![p] = "live"]
              /\ cnt' = IF LiveFixed THEN cnt ELSE cnt - 1
              /\ dev' = (dev \/ ~LiveFixed)
-             /\ UNCHANGED <<cfg, qx, pre, q, lock, entry, mx, nrr, eff>>
+             /\ UNCHANGED <<cfg, saw, qx, pre, q, lock, entry, mx, nrr, eff>>
              /\ Log(p, IF LiveFixed THEN "GoLive" ELSE "Detach")
 
 \* a peer notification (fatal TunnelError / TunnelClosed) closes the registered tunnel before it was started:
@@ -288,7 +323,7 @@ PeerClose(p) == /\ K = "maplimit" /\ pc[p] = "reg"
                 /\ pc' = [pc EXCEPT ![p] = "regc"]
                 /\ cnt' = IF LiveFixed THEN cnt - 1 ELSE cnt
                 /\ eff' = [eff EXCEPT ![p] = 0]
-                /\ UNCHANGED <<cfg, qx, pre, q, lock, entry, mx, nrr, dev>>
+                /\ UNCHANGED <<cfg, saw, qx, pre, q, lock, entry, mx, nrr, dev>>
                 /\ Log(p, "PeerClose")
 
 \* ... Tunnel.Start then fails; handleConnection's deferred release runs: as is it is the only release; repaired it
@@ -297,8 +332,18 @@ StartFail(p) == /\ K = "maplimit" /\ pc[p] = "regc"
                 /\ pc' = [pc EXCEPT ![p] = "rel"]
                 /\ cnt' = IF ~LiveFixed \/ DoubleRel THEN cnt - 1 ELSE cnt
                 /\ dev' = (dev \/ (LiveFixed /\ DoubleRel))
-                /\ UNCHANGED <<cfg, qx, pre, q, lock, entry, mx, nrr, eff>>
+                /\ UNCHANGED <<cfg, saw, qx, pre, q, lock, entry, mx, nrr, eff>>
                 /\ Log(p, "StartFail")
+
+\* a peer notification closes a tunnel that is relaying: Tunnel.Close runs once (state CAS) and its OnClosed gives the
+\* slot back (as is, the slot was freed at Detach already); the copy loops of the closed tunnel end and call
+\* Tunnel.Close again, which is a no-op (same step)
+PeerCloseLive(p) == /\ K = "maplimit" /\ Rel /\ pc[p] = "live"
+                    /\ pc' = [pc EXCEPT ![p] = "rel"]
+                    /\ cnt' = IF LiveFixed THEN cnt - 1 ELSE cnt
+                    /\ eff' = [eff EXCEPT ![p] = 0]
+                    /\ UNCHANGED <<cfg, saw, qx, pre, q, lock, entry, mx, nrr, dev>>
+                    /\ Log(p, "PeerCloseLive")
 
 \* an admitted connection ends
 Release(p) == /\ Rel /\ ~IsQuota /\ pc[p] \in {"adm", "live"} /\ RegFree
@@ -306,7 +351,7 @@ Release(p) == /\ Rel /\ ~IsQuota /\ pc[p] \in {"adm", "live"} /\ RegFree
               /\ eff' = [eff EXCEPT ![p] = 0]
               /\ pc' = [pc EXCEPT ![p] = "rel"]
               /\ q' = SelectSeq(q, LAMBDA x : x # p)
-              /\ UNCHANGED <<cfg, qx, pre, lock, entry, mx, nrr, dev>>
+              /\ UNCHANGED <<cfg, saw, qx, pre, lock, entry, mx, nrr, dev>>
               /\ Log(p, "Release")
 
 \* a removal of an id that is not registered: second close of a connection that is gone, close of an unknown id
@@ -314,7 +359,7 @@ Release(p) == /\ Rel /\ ~IsQuota /\ pc[p] \in {"adm", "live"} /\ RegFree
 ReRelease(p) == /\ Rel /\ K \in {"conncap", "ctrlcap", "tuncap"} /\ RegFree
                 /\ pc[p] \in {"start", "rel", "refused", "evicted"} /\ nrr < MaxReRel
                 /\ nrr' = nrr + 1
-                /\ UNCHANGED <<cfg, qx, pc, cnt, pre, q, lock, entry, mx, eff, dev>>
+                /\ UNCHANGED <<cfg, saw, qx, pc, cnt, pre, q, lock, entry, mx, eff, dev>>
                 /\ Log(p, "ReRelease")
 
 \* ---- per-client quotas over shared storage -------------------------------------------------
@@ -349,14 +394,14 @@ Call(p) == /\ IsQuota /\ pc[p] = "start"
                       ELSE /\ pc' = [pc EXCEPT ![p] = "count"]
                            /\ lock' = [lock EXCEPT ![m] = p]
                            /\ dev' = (dev \/ InFlightOtherKey(p))
-           /\ UNCHANGED <<cfg, qx, cnt, pre, q, eff, nrr>>
+           /\ UNCHANGED <<cfg, saw, qx, cnt, pre, q, eff, nrr>>
            /\ Log(p, "Call")
 
 \* the decision: number of countable entries in the per-client index at the time of the read
 Count(p) == /\ IsQuota /\ pc[p] = "count"
             /\ IF QFull(cnt) THEN Return(p, "refused", dev)
                ELSE pc' = [pc EXCEPT ![p] = IF IndexFirst THEN "index" ELSE "put"] /\ UNCHANGED <<lock, entry, dev>>
-            /\ UNCHANGED <<cfg, qx, cnt, pre, q, eff, mx, nrr>>
+            /\ UNCHANGED <<cfg, saw, qx, cnt, pre, q, eff, mx, nrr>>
             /\ Log(p, "Count")
 
 \* the record is written: the code / mapping exists (deviation StalePut when the quota was used up meanwhile)
@@ -365,7 +410,7 @@ Put(p) == /\ IsQuota /\ pc[p] = "put"
           /\ eff' = [eff EXCEPT ![p] = 1]
           /\ IF IndexFirst THEN Return(p, "adm", dev \/ QFull(Occ))
              ELSE pc' = [pc EXCEPT ![p] = "index"] /\ dev' = (dev \/ QFull(Occ)) /\ UNCHANGED <<lock, entry>>
-          /\ UNCHANGED <<cfg, cnt, pre, q, mx, nrr, ixs, lpc, lq, ltg>>
+          /\ UNCHANGED <<cfg, saw, cnt, pre, q, mx, nrr, ixs, lpc, lq, ltg>>
           /\ Log(p, "Put")
 
 \* the index entry is appended: from now on other requests count it
@@ -374,11 +419,13 @@ Index(p) == /\ IsQuota /\ pc[p] = "index"
             /\ ixs' = Append(ixs, p)
             /\ IF IndexFirst THEN pc' = [pc EXCEPT ![p] = "put"] /\ UNCHANGED <<lock, entry, dev>>
                ELSE Return(p, "adm", dev)
-            /\ UNCHANGED <<cfg, pre, q, eff, mx, nrr, recs, lpc, lq, ltg>>
+            /\ UNCHANGED <<cfg, saw, pre, q, eff, mx, nrr, recs, lpc, lq, ltg>>
             /\ Log(p, "Index")
 
 \* ---- the list request (no quota mutex) ---------------------------------------------------------
-HasLister == Listers = 1 /\ K = "codequota"
+\* (one service instance only: with two instances the quota mutexes are different objects and the creates race
+\* anyway - named deviation, known finding - a list request adds nothing there)
+HasLister == Listers = 1 /\ IsQuota /\ cfg.nodes = 1
 \* look the entries of sq up one after the other; stop at the first one without a record
 Scan(sq) == LET bad == {i \in 1..Len(sq) : sq[i] \notin recs} IN
             IF bad = {} THEN lpc' = "done" /\ lq' = <<>> /\ ltg' = 0
@@ -386,11 +433,11 @@ Scan(sq) == LET bad == {i \in 1..Len(sq) : sq[i] \notin recs} IN
                  lpc' = "prune" /\ ltg' = sq[i] /\ lq' = SubSeq(sq, i + 1, Len(sq))
 LCall == /\ HasLister /\ lpc = "idle"
          /\ lpc' = "list"
-         /\ UNCHANGED <<cfg, pc, cnt, pre, q, lock, entry, mx, nrr, eff, dev, recs, ixs, lq, ltg>>
+         /\ UNCHANGED <<cfg, saw, pc, cnt, pre, q, lock, entry, mx, nrr, eff, dev, recs, ixs, lq, ltg>>
          /\ Log(0, "LCall")
 LList == /\ lpc = "list"
          /\ Scan(ixs)
-         /\ UNCHANGED <<cfg, pc, cnt, pre, q, lock, entry, mx, nrr, eff, dev, recs, ixs>>
+         /\ UNCHANGED <<cfg, saw, pc, cnt, pre, q, lock, entry, mx, nrr, eff, dev, recs, ixs>>
          /\ Log(0, "LList")
 \* RemoveFromList of an entry whose record was not found - the entry of a create in flight (deviation LivePruned)
 LPrune == /\ lpc = "prune"
@@ -399,12 +446,12 @@ LPrune == /\ lpc = "prune"
              /\ cnt' = IF there THEN cnt - 1 ELSE cnt
           /\ dev' = TRUE
           /\ Scan(lq)
-          /\ UNCHANGED <<cfg, pc, pre, q, lock, entry, mx, nrr, eff, recs>>
+          /\ UNCHANGED <<cfg, saw, pc, pre, q, lock, entry, mx, nrr, eff, recs>>
           /\ Log(0, "LPrune")
 
 Next == \/ \E p \in Procs : \/ Check(p) \/ Insert(p) \/ InsertChk(p) \/ AddCmp(p) \/ Undo(p)
                             \/ Reg(p) \/ RegIns(p) \/ Release(p) \/ ReRelease(p)
-                            \/ Register(p) \/ GoLive(p) \/ PeerClose(p) \/ StartFail(p)
+                            \/ Register(p) \/ GoLive(p) \/ PeerClose(p) \/ StartFail(p) \/ PeerCloseLive(p)
                             \/ Call(p) \/ Count(p) \/ Put(p) \/ Index(p)
         \/ LCall \/ LList \/ LPrune
 Spec == Init /\ [][Next]_vars
@@ -430,6 +477,7 @@ TypeOK == /\ cfg.n \in NS /\ cfg.lim \in Lims
           /\ \A i \in MX : lock[i] = 0 \/ pc[lock[i]] \in {"count", "put", "index", "evict"}
           /\ (IsQuota /\ Fixed) => \A p \in Procs : pc[p] \in {"count", "put", "index"} => lock[mx[p]] = p
           /\ nrr \in 0..MaxReRel
+          /\ \A p \in Procs : saw[p] # NoSaw => pc[p] = "mid"
 
 \* generation without VIEW: one line per maximal behaviour (every request refused, ended, evicted, or admitted for good)
 Terminal == /\ lpc \in {"idle", "done"} /\ ~(HasLister /\ lpc = "idle")
